@@ -507,5 +507,88 @@ class DidCreateDirectory(Spec):
         return [("canary", z3.BoolVal(len(out.post["db"].directories) == 0))]
 
 
+def backup_history_failures(seed, nhist):
+    """native run-time contract with the real BackupDB_v2 on a real sqlite file: seeded histories of backup runs (each run
+    opens the database anew) over 4 paths whose contents are edited, touched, swapped for identical copies or left alone;
+    whenever check_file offers a cap it must be the cap of THAT path's most recent upload and the file's size/mtime/ctime must
+    be what was recorded then"""
+    import hashlib
+    import os
+    import random
+    import shutil
+    import tempfile
+    from io import StringIO
+    from allmydata.scripts import backupdb
+    rng = random.Random(seed)
+    bad, n = [], 0
+    for h in range(nhist):
+        d = tempfile.mkdtemp(prefix="verifbackup.")
+        try:
+            paths = [os.path.join(d, "f%d" % i) for i in range(4)]
+            clock = [1000000000]
+            model = {}          # path -> (cap, (size, mtime, ctime)) of the most recent upload
+            history = []
+
+            def write(p, content):
+                with open(p, "wb") as f:
+                    f.write(content)
+                clock[0] += rng.choice([1, 1, 60])
+                os.utime(p, (clock[0], clock[0]))
+            for p in paths:
+                write(p, b"contents-%d" % rng.randrange(3))
+            for run in range(rng.randint(2, 5)):
+                for p in paths:
+                    ev = rng.choice(["none", "none", "edit", "same-size-edit", "copy-of-other", "touch"])
+                    if ev == "edit":
+                        write(p, b"contents-%d-%d" % (rng.randrange(3), rng.randrange(1000)))
+                    elif ev == "same-size-edit":
+                        old = open(p, "rb").read()
+                        write(p, bytes((b + 1) % 256 for b in old))
+                    elif ev == "copy-of-other":
+                        write(p, open(rng.choice(paths), "rb").read())
+                    elif ev == "touch":
+                        write(p, open(p, "rb").read())
+                    history.append((run, os.path.basename(p), ev))
+                db = backupdb.get_backupdb(os.path.join(d, "backupdb.sqlite"), stderr=StringIO())
+                order = list(paths)
+                rng.shuffle(order)
+                for p in order:
+                    n += 1
+                    st = os.stat(p)
+                    r = db.check_file(p)
+                    offered = r.was_uploaded()
+                    content = open(p, "rb").read()
+                    truecap = b"URI:CHK:" + hashlib.sha256(content).hexdigest().encode("ascii")       # a convergent grid: same bytes, same cap
+                    if offered:
+                        rec = model.get(p)
+                        ok = rec is not None and offered == rec[0] and rec[1] == (st.st_size, st.st_mtime, st.st_ctime)
+                        if not ok:
+                            bad.append({"history": history[-10:], "path": os.path.basename(p), "offered": offered.decode("ascii")[-12:] if isinstance(offered, bytes) else str(offered)[-12:],
+                                        "most_recent_upload_of_this_path": (rec[0].decode("ascii")[-12:] if rec else None), "contents_now_hash": truecap.decode("ascii")[-12:]})
+                    else:
+                        r.did_upload(truecap)
+                        model[p] = (truecap, (st.st_size, st.st_mtime, st.st_ctime))
+                del db
+        finally:
+            shutil.rmtree(d, ignore_errors=True)
+    return bad, n
+
+
+def extra_checks(rep, tier):
+    bad, n = backup_history_failures(rep.seed * 13 + 5, 60 if tier == "quick" else 1500)
+    name = "BackupHistories:a-cap-is-offered-only-from-the-record-of-that-paths-most-recent-upload-with-unchanged-size-and-times"
+    rep.obligations += 1
+    rep.bounded_obligations += 1
+    rep.paths += n
+    rep.sym_paths += n
+    rep.bounds.append("backup histories: %d check_file decisions over seeded histories of 2..5 runs x 4 paths (edit / same-size edit / copy of another file / touch / nothing), real sqlite, one connection per run" % n)
+    if not bad:
+        rep.discharged += 1
+        rep.discharged_names.add(name)
+        return
+    rep.violations.append({"property": "C42", "contract": "BackupHistories", "obligation": name, "status": "runtime", "inputs": bad[0],
+                           "native_outcome": "%d of %d decisions offer a cap that is not this path's most recent upload; first: %r" % (len(bad), n, bad[0]), "confirmed_on_real_code": True})
+
+
 def contracts(tier):
     return [CheckFile(), DidUploadThenCheck(), CheckDirectory(), DidCreateDirectory()]
